@@ -440,8 +440,11 @@ theorem inAnotherChunk_replay {cfg : Cfg} {k : Kind} {L : Layout} {hh : Hints} {
     simp only at e
     obtain ⟨⟨sa, r1⟩, ha, e⟩ := bind_eq_ok e
     cases r1 with
-    | error er => simp only [freshStep, pure_eq_ok, Except.ok.injEq, Prod.mk.injEq] at e; cases e.2
+    | error er =>
+      rw [appendStep_error] at e
+      simp only [Except.ok.injEq, Prod.mk.injEq] at e; cases e.2
     | ok idx =>
+      rw [appendStep_ok] at e
       simp only [freshStep] at e
       obtain ⟨o2, ho2, e⟩ := bind_eq_ok e
       cases o2 with
